@@ -56,6 +56,12 @@ type Controller struct {
 	// FaultFired tells whether the injected fault was actually raised
 	FaultFired bool
 	arrived    int // tasks of the current batch that reached their start hook
+	// batch announcements (hook H4): the k-th announcement tells how many tasks the k-th batch has
+	annSeq   int
+	annN     int
+	batchIdx int // batches whose first task has registered
+	firstArr time.Time
+	Batches  int // announcements seen (evidence)
 }
 
 func NewController(ch Chooser, fault Fault, expected int) *Controller {
@@ -84,8 +90,12 @@ func (c *Controller) hook(side int, id int32, step int, token *int32) {
 		}
 		c.tasks[id] = t
 		c.lastArr = time.Now()
+		if c.firstArr.IsZero() {
+			c.firstArr = c.lastArr
+		}
 		if c.liveCount() == 1 {
 			c.arrived = 0 // first task of a new batch
+			c.batchIdx++
 		}
 		c.arrived++
 	}
@@ -123,6 +133,28 @@ func (c *Controller) hook(side int, id int32, step int, token *int32) {
 	}
 }
 
+// batchHook receives the announcement of a batch (called on the API caller's goroutine after the tasks were launched)
+func (c *Controller) batchHook(side int, firstID int32, n int, token *int32) {
+	c.mu.Lock()
+	c.annSeq++
+	c.annN = n
+	c.Batches++
+	c.tokenPtr = token
+	c.cond.Broadcast()
+	c.mu.Unlock()
+}
+
+// batchComplete tells whether every task of the current batch has reached a hook. It is decided from the batch
+// announcement alone (no clock): until the announcement for this batch has arrived and that many tasks have
+// registered, nothing is scheduled and no verdict is given. legacy == true only on a tree without the batch hook
+// (no announcement ever seen 10 s after the first task): then the old grace periods apply.
+func (c *Controller) batchComplete() (complete, legacy bool) {
+	if c.annSeq == 0 && !c.firstArr.IsZero() && time.Since(c.firstArr) > 10*time.Second {
+		return false, true
+	}
+	return c.annSeq >= c.batchIdx && c.arrived >= c.annN, false
+}
+
 // loop is the controller: releases exactly one task at a time
 func (c *Controller) loop(done chan struct{}) {
 	defer close(done)
@@ -144,16 +176,17 @@ func (c *Controller) loop(done chan struct{}) {
 				}
 			}
 			if live > 0 && waiting == live {
-				if c.Expected <= 0 || c.arrived >= c.Expected {
+				complete, legacy := c.batchComplete()
+				if complete {
 					break
 				}
-				// fewer tasks than expected (late goroutines, or a partial last batch): give them a moment, then go on
-				if time.Since(c.lastArr) > 5*time.Millisecond {
-					break
+				if legacy {
+					if c.Expected <= 0 || c.arrived >= c.Expected || time.Since(c.lastArr) > 5*time.Millisecond {
+						break
+					}
 				}
-				c.mu.Unlock()
-				time.Sleep(200 * time.Microsecond)
-				c.mu.Lock()
+				// tasks of this batch are still on their way to their first hook (or the announcement is): wait for them
+				c.waitTick()
 				continue
 			}
 			if live == 0 || waiting < live {
@@ -177,8 +210,8 @@ func (c *Controller) loop(done chan struct{}) {
 			}
 			cands = append(cands, Cand{ID: id, Step: t.step})
 		}
-		if len(cands) == 0 && (c.Expected <= 0 || c.arrived < c.Expected) && time.Since(c.lastArr) < 2*time.Second {
-			// maybe a task of this batch has not reached its first hook yet: not a verdict
+		if _, legacy := c.batchComplete(); legacy && len(cands) == 0 && (c.Expected <= 0 || c.arrived < c.Expected) && time.Since(c.lastArr) < 2*time.Second {
+			// (tree without the batch hook) maybe a task of this batch has not reached its first hook yet: not a verdict
 			c.mu.Unlock()
 			time.Sleep(500 * time.Microsecond)
 			c.mu.Lock()
@@ -286,6 +319,8 @@ func sortCands(c []Cand) {
 // events in execution order.
 func (c *Controller) Run(f func()) []Event {
 	kio.SetVerifStepHook(c.hook)
+	kio.SetVerifBatchHook(c.batchHook)
+	defer kio.SetVerifBatchHook(nil)
 	done := make(chan struct{})
 	fdone := make(chan struct{})
 	go c.loop(done)
